@@ -245,7 +245,9 @@ func (w *Watcher) fetchEvents(ctx context.Context, logger *zap.Logger, client *C
 				unconfirmedEvents = append(unconfirmedEvents, unconfirmed...)
 
 				fromIndex = events.NextStart
-				if events.NextStart == *count {
+				// The log may have grown past the polled count while paging: stop as soon as the polled
+				// count is reached or passed instead of requesting the same empty page forever.
+				if events.NextStart >= *count {
 					break
 				}
 			}
